@@ -347,7 +347,7 @@ def run(mod, tier, seed):
         "events": dict(sorted(agg["events"].items())),
         "outcomes": dict(sorted(agg["outcomes"].items())),
         "inconclusive_cases": ninc,
-        "inconclusive_examples": [str(x["why"])[:400] for x in agg["inconclusive"][:3]],
+        "inconclusive_examples": [str(x["why"])[-1500:] for x in agg["inconclusive"][:3]],
         "known_findings_hit": {k: len(v) for k, v in sorted(known_hit.items())},
         "unknown_violation_keys": sorted(unknown),
         "rope_root": ROPE_ROOT,
@@ -355,6 +355,7 @@ def run(mod, tier, seed):
         "workers": nworkers,
         "verdict": "violated" if unknown else ("inconclusive" if reasons else "held-on-observed"),
         "inconclusive_reasons": reasons,
+        "inconclusive_specs": [x["spec"] for x in agg["inconclusive"][:5]],
     }
     cov.update(extra)
     evidence = {
